@@ -371,7 +371,12 @@ def init_site(ini):
 
 
 def check_initialisers(h: Harness):
-    g, r, rep = sc.tree_setup(h.seed)
+    for setup, tag in ((sc.tree_setup(h.seed), ""), (sc.tree_setup_tight(h.seed), ":limit=minimum=2"), (sc.tree_setup_tight(h.seed, sc.Top3), ":limit=minimum=3")):
+        check_initialisers_on(h, setup, tag)
+
+
+def check_initialisers_on(h: Harness, setup, tag):
+    g, r, rep = setup
     problem = SingleObjectiveProblem(lambda p: 0.0)
     backups = ["standard", "full", "grow", "pigrow", ("half", "grow", "full"), ("half", "standard", ("half", "full", "grow")),
                ("inject", 1, "standard"), ("inject", 3, ("half", "grow", "full"))]
@@ -394,7 +399,7 @@ def check_initialisers(h: Harness):
                 out = f"error:{type(e).__name__}"
             replay = {"initializer": str(init_sx(ini)), "target_size": k}
             nontrivial = k >= 2
-            h.count(f"init:{ini if isinstance(ini, str) else ini[0]}")
+            h.count(f"init:{ini if isinstance(ini, str) else ini[0]}{tag}")
             if isinstance(out, str):
                 h.agree(init_site(ini), ["init", init_sx(ini), k], "error", nontrivial=nontrivial, replay=replay)
                 h.fail(init_site(ini), "raises", f"{init_sx(ini)}.initialize(target_size={k}) raised {out}", replay)
